@@ -96,12 +96,12 @@ prop('C12', level='proof',
      technique='woven accessor assertions under CBMC monitor models + goto-cc symbol-table scan', design_ref='§4 C12, §9',
      undecided=['heap objects handed between threads (ownership transfer through the queues)', 'libc internals', 'eof in expand.c'])
 prop('C14', level='proof',
-     text='Lemma harnesses prove for every bit history that mini_dfa implements the longest-border (KMP) automaton of the literal pattern 0x314159265359 and that big_dfa is its 8-step composition with absorbing ACCEPT (all 49x256 entries); the scan() routine is checked against a naive matcher on windows of 84-127 symbolic bits (buffered bits + two input words) with symbolic skip (bounded), including that backtracking into a word always ends in that word.',
+     text='Lemma harnesses prove for every bit history that mini_dfa implements the longest-border (KMP) automaton of the literal pattern 0x314159265359 and that big_dfa is its 8-step composition with absorbing ACCEPT (all 49x256 entries); the scan() routine is checked against a naive matcher on windows of 84-127 symbolic bits (buffered bits + two input words) with symbolic skip (bounded), including that backtracking into a word always ends in that word; within such a window a candidate can only follow a skip that stays inside the buffered bits, so the word-skipping arithmetic is NOT decided (a seeded change there is missed, see DESIGN 9.4).',
      note=PCHAIN + 'the induction over bit histories that lifts the step lemma to all streams is a '
           'paper argument; scan() word loop only bounded (its loop shares a cycle with goto again, CBMC loop contracts cannot attach).',
      technique='CBMC lemma harnesses over scantab.h (exhaustive) + bounded check of scan() against a naive matcher',
      design_ref='§4 C14',
-     undecided=['scan() beyond the stated window bound', 'the unwinding assertion of the goto-again cycle is replaced by the woven no-second-backtrack assertion'],
+     undecided=['scan() beyond the stated window bound', 'the unwinding assertion of the goto-again cycle is replaced by the woven no-second-backtrack assertion', 'skip distances larger than the buffered bits are not decided (a candidate after skipped words needs >= 4 input words; those windows are vacuous under CBMC unwinding of the goto cycle) -- seeded change C14_scan_skip_rounding_after_dump is missed'],
      assumptions=['induction principle over bit histories (paper step)'])
 prop('C15', level='proof',
      text='parse() contract: hd->crc is bit-for-bit the stored field and the stream check compares the stored trailer with the combination; custody of the header '
